@@ -1,4 +1,5 @@
-\* C17, candidate repair: the writer signals completion first, then clears the request. EXPECTED: no error (149 945 distinct states).
+\* C17, first repair: the writer signals completion first, then clears the request. EXPECTED: no error with ONE recording
+\* (189 875 distinct states); with MaxRec = 2 Conservation is violated (see DataLogger_restart.cfg).
 SPECIFICATION Spec
 CONSTANTS
   DS = {"d1", "d2"}
@@ -7,6 +8,8 @@ CONSTANTS
   MaxNone = 1
   MaxTicks = 2
   MaxPause = 1
+  MaxRec = 1
+  EaccReset = FALSE
   Dts = {16}
   WriterOrder = "set_then_clear"
   I1 = 30
